@@ -423,33 +423,33 @@ func idleState(s string) bool {
 	return false
 }
 
-// quiesce waits until every library / worker goroutine is blocked and the trace
-// has not advanced between two consecutive stop-the-world snapshots.
+// quiesce waits until every library / worker goroutine is blocked and the trace does not advance: three
+// consecutive stop-the-world snapshots spread over more than 2 ms must all show every such goroutine blocked,
+// with the same set of goroutines and no trace line in between.  (Under heavy machine load a single short window
+// was once seen to be "quiet" by accident.)
+func allIdle(st []string) bool {
+	for _, s := range st {
+		if !idleState(s) || s == "sleep" {
+			return false
+		}
+	}
+	return true
+}
+
 func quiesce(t *Tracer, max time.Duration) bool {
 	deadline := time.Now().Add(max)
 	for {
 		s1 := t.Seq()
 		st, _ := libGoroutines()
-		ok := true
-		for _, s := range st {
-			if !idleState(s) || s == "sleep" {
-				ok = false
-				break
-			}
+		ok := allIdle(st)
+		for round := 0; ok && round < 2; round++ {
+			runtime.Gosched()
+			time.Sleep(time.Duration(400+900*round) * time.Microsecond)
+			st2, _ := libGoroutines()
+			ok = len(st2) == len(st) && allIdle(st2) && t.Seq() == s1
 		}
 		if ok {
-			runtime.Gosched()
-			time.Sleep(200 * time.Microsecond)
-			st2, _ := libGoroutines()
-			ok2 := len(st2) == len(st)
-			for _, s := range st2 {
-				if !idleState(s) || s == "sleep" {
-					ok2 = false
-				}
-			}
-			if ok2 && t.Seq() == s1 {
-				return true
-			}
+			return true
 		}
 		if time.Now().After(deadline) {
 			return false
